@@ -1,5 +1,5 @@
 SPECIFICATION Spec
-CONSTANT Devs = {}
+CONSTANT Devs = {"AsyncPing"}
 INVARIANT Report
 POSTCONDITION TraceAccepted
 CHECK_DEADLOCK FALSE
